@@ -260,10 +260,12 @@ class GSM7BitCodec(SmsCodec):
 
 
     def _decode_char(self, char_code: int, escaped: bool) -> Tuple[str, bool]:
+        if escaped:
+            # Any code without an entry in the extension table yields a placeholder, also the escape
+            # code itself (3GPP TS 23.038: reserved for another extension table, display a space)
+            return GSM_EXTENDED_DECODE_MAP.get(char_code, chr(NO_BREAK_SPACE)), False
         if char_code == ESCAPE:
             return '', True
-        if escaped:
-            return GSM_EXTENDED_DECODE_MAP.get(char_code, chr(NO_BREAK_SPACE)), False
         return GSM_BASIC_DECODE_MAP.get(char_code, ''), False
 
 
